@@ -33,7 +33,7 @@ try:
         meta["checks"] = {}
         for chk in [pid] + extra_checks:
             t = time.time()
-            c = sh(f"cd /verif && COHDL_REPO={wt} /venv/bin/python run.py quick {chk}", timeout=3000)
+            c = sh(f"cd /verif && COHDL_VERIF_ONLY=1 COHDL_REPO={wt} /venv/bin/python run.py quick {chk}", timeout=3000)
             lines = [l for l in c.stdout.splitlines() if l.startswith("VIOLATION") or l.startswith("  ")]
             meta["checks"][chk] = {"exit": c.returncode, "wall_s": round(time.time() - t), "first_lines": [l[:400] for l in lines[:4]],
                                    "summary": c.stdout.strip().splitlines()[-1][:300] if c.stdout.strip() else c.stderr[-300:]}
